@@ -95,6 +95,24 @@ Theorem C42_initial_state :
 Proof. exact p_initial_state. Qed.
 Print Assumptions C42_initial_state.
 
+(* timeouts: whatever schedule of socket.timeout exceptions the stream's _read follows (efaults) and
+   however it chunks, the bytes returned by any sequence of read(n) calls -- including the retries
+   after a timeout -- followed by what is still unread are exactly the stream: an exception raised
+   between two chunks of one read(n) loses nothing.  (read() and readline() under exceptions: see the
+   known findings; not modelled.) *)
+Theorem C42_read_n_stream_timeouts :
+  forall (fuel : nat) (ns : list Z) (f : ebf) (rs : list (result (list Z))) (f' : ebf),
+    erun fuel f ns = (rs, f') ->
+    elogical f = concat (map ok_bytes rs) ++ elogical f'.
+Proof. exact erun_pres. Qed.
+Print Assumptions C42_read_n_stream_timeouts.
+
+Example C42_example_timeouts :
+  let f0 : ebf := set_mode true false false false 0 0
+                    (mkes (mkcs [1;2;3;4;5;6;7] [2;2;2;2] [] []) false [false; true; false; true]) in
+  fst (erun 20 f0 [5; 5; 5; 5]) = [Raise SocketTimeout; Raise SocketTimeout; Ok [1;2;3;4;5]; Ok [6;7]].
+Proof. reflexivity. Qed.
+
 (* the model's constants and its reading of the mode string / bufsize argument are those of the
    source: _DEFAULT_BUFSIZE, the linefeed byte, and -- for every mode string, 11 bufsize arguments and
    two file sizes -- the FLAG_* bits, _bufsize and initial _pos computed by the real _set_mode
